@@ -9,6 +9,7 @@ import (
 	"os/exec"
 	"path/filepath"
 	"regexp"
+	"sort"
 	"strings"
 	"sync"
 	"time"
@@ -150,11 +151,8 @@ func dischargeBatch(vc *VC, dir string, tag string, workers int, quick, slow int
 	if len(vc.obls) == 0 {
 		return
 	}
-	// obligations are created in script order, so prefixes are nested
-	idx := make([]int, len(vc.obls))
-	for i := range idx {
-		idx[i] = i
-	}
+	// prefixes are nested; process the obligations in script order
+	sort.SliceStable(vc.obls, func(i, j int) bool { return vc.obls[i].Prefix < vc.obls[j].Prefix })
 	var b strings.Builder
 	b.WriteString(fmt.Sprintf("(set-option :timeout %d)\n(set-logic ALL)\n", quick*1000))
 	pos := 0
@@ -178,6 +176,9 @@ func dischargeBatch(vc *VC, dir string, tag string, workers int, quick, slow int
 	out, _ := exec.CommandContext(ctx, "z3-new", file).CombinedOutput()
 	cancel()
 	el := time.Since(t0).Seconds()
+	if os.Getenv("GOVC_TIMING") != "" && el > 1 {
+		fmt.Fprintf(os.Stderr, "timing: %s batch %.1fs (%d obligations)\n", tag, el, len(vc.obls))
+	}
 	var answers []string
 	for _, ln := range strings.Split(string(out), "\n") {
 		ln = strings.TrimSpace(ln)
